@@ -110,9 +110,14 @@ def run_one(tape, cfg):
         nfiles = 1 + tape.draw(3, "nfiles")
         texts = [gen_text(tape, delim, cfg["maxlen"], UNIVERSAL_ALPHA if universal else ALPHA)
                  for _ in range(nfiles)]
+        # a long file whose delimiter occurrence straddles the 8192-character buffer size of text I/O
+        long_file = (not universal) and tape.chance(1, 10, "long_file")
+        if long_file:
+            texts[0] = "x" * (8192 - len(delim) + 1 + tape.draw(max(1, len(delim) - 1), "straddle")
+                              - tape.draw(2, "shift")) + delim + texts[0]
         datas = [t.encode() for t in texts]
         maxb = max(len(d) for d in datas) + 2
-        blocksize = None if tape.draw(5, "bsnone") == 0 else 1 + tape.draw(maxb, "bs")
+        blocksize = None if (tape.draw(5, "bsnone") == 0 or long_file) else 1 + tape.draw(maxb, "bs")
         fpp = None
         if blocksize is None and tape.chance(1, 2, "fpp"):
             fpp = 1 + tape.draw(nfiles, "fppn")
@@ -136,6 +141,8 @@ def run_one(tape, cfg):
         out.probe("two_blocksizes_one_compute")
     if universal:
         out.probe("universal_newlines")
+    if long_file:
+        out.probe("long_file_buffer_boundary")
     wl = {"delim": None if universal else delim, "texts": texts, "blocksize": blocksize, "blocksize2": blocksize2,
           "files_per_partition": fpp,
           "include_path": include_path, "api": api, "class": klass, "nworkers": nworkers, "policy": policy}
